@@ -36,7 +36,11 @@ class VirtualToReal:
       self._import_field_references(previous)
       self._update_field_backreferences(previous)
     else:
-      self._initialize_references()
+      try:
+        self._initialize_references()
+      except:
+        self._rollback_connect()
+        raise
     self._import_nonfield_references(previous)
     self._update_nonfield_backreferences(previous)
 
